@@ -25,6 +25,8 @@ type Pegnetd struct {
 	LastAveragesData   map[fat2.PTicker][]uint64 // The last set of data used to create averages
 	LastAverages       map[fat2.PTicker]uint64   // Cache for averages when requested for the same height
 	LastAveragesHeight uint32                    // Height of the current cache
+
+	lastAveragesDataHeights map[fat2.PTicker][]uint32 // Block height of every sample in LastAveragesData
 }
 
 func NewPegnetd(ctx context.Context, conf *viper.Viper) (*Pegnetd, error) {
